@@ -20,7 +20,7 @@ What is excluded, by name:
   already moved the client but not reset the filter; open finding "seek-failure-desync",
   `failed_seek_leaves_stream_false` in C08).
 -/
-import LA.Lemmas.ReadAheadSeekRefine
+import LA.Lemmas.ReadAheadSeekOpen
 import LA.Lemmas.ReadAheadSeekAsFound
 namespace LA.C05
 open LA.RA
@@ -117,39 +117,12 @@ theorem run_rel {α : Type} (p : Prog α) (s : State) (sp : SSpec) (hr : Rel s s
     have hfr : (RA.seek s off w).2.skips = s.skips ∧ NoSeekSkip (RA.seek s off w).2 := seek_keeps s sp off w hr hns
     exact ih _ _ _ i1 (by rw [hfr.1]; exact hsk) hfr.2 (seek_seeksOk s off w hr hq) hsafe
 
-/-- What a state must satisfy beyond `Inv` for seeks to make sense: if seeking is possible at
-all, the `dataset[]` bookkeeping is sound, there is a seek callback, and the bytes not yet
-consumed are the stream from `position` on. -/
-def SeekReady (s : State) : Prop :=
-  s.canSeek = true → CacheOk s ∧ s.hasSeeker = true ∧ (s.fatal = false → remaining s = (allBytes s).drop s.position)
-
-/-- The abstraction of a state: for a seekable source the concatenation of its nodes; for a
-sequential one what was consumed so far (of which nothing can be observed any more) followed
-by what remains. -/
-def absS (s : State) : SSpec :=
-  { all := if s.canSeek then allBytes s else List.replicate s.position 0 ++ remaining s,
-    pos := s.position, term := s.term, fatal := s.fatal, canSeek := s.canSeek, lost := false }
-
-theorem rel_absS (s : State) (hi : Inv s) (hr : SeekReady s) : Rel s (absS s) := by
-  refine { fatal := rfl, term := rfl, canSeek := rfl, bufLt := hi.bufLt, seekable := ?_, pos := fun _ => rfl,
-           sync := fun _ => ⟨hi, fun hf => ?_⟩ }
-  · intro hcs
-    obtain ⟨a, b, _⟩ := hr hcs
-    exact ⟨a, b, by simp [absS, hcs]⟩
-  · by_cases hcs : s.canSeek = true
-    · simp only [absS, hcs, if_true]
-      exact (hr hcs).2.2 hf
-    · have : s.canSeek = false := by simpa using hcs
-      simp only [absS, this, Bool.false_eq_true, if_false]
-      rw [List.drop_append]
-      simp
-
 /-- **Refinement for every client**, from every state satisfying the representation invariant:
 running the client on the C-shaped state equals running it on the abstract stream. -/
 theorem run_refines {α : Type} (p : Prog α) (s : State) (hi : Inv s) (hsk : SkipsOk s.skips)
-    (hns : NoSeekSkip s) (hq : SeeksOk s.seeks) (hr : SeekReady s) (hsafe : SpecSafe p (absS s)) :
-    runImpl p s = runSpec p (absS s) :=
-  run_rel p s (absS s) (rel_absS s hi hr) hsk hns hq hsafe
+    (hns : NoSeekSkip s) (hq : SeeksOk s.seeks) (hr : SeekReady s) (hsafe : SpecSafe p (absStream s)) :
+    runImpl p s = runSpec p (absStream s) :=
+  run_rel p s (absStream s) (rel_absStream s hi hr) hsk hns hq hsafe
 
 /-- Freshly opened filter over a block script (no seek callback). -/
 def open_ (src : List (List Nat)) (t : Term) (skips : List Int) (canSkip : Bool) : State :=
@@ -160,14 +133,11 @@ def openNodes (src : List (List Nat)) (later : List (List (List Nat))) (t : Term
     (canSkip : Bool) : State :=
   { src := src, later := later, term := t, skips := skips, canSkip := canSkip }
 
-theorem seekReady_of_noseek (s : State) (h : s.canSeek = false) : SeekReady s := by
-  intro hc; rw [h] at hc; cases hc
-
 /-- Sequential sources (any `Prog`, seeks included: they are refused with ARCHIVE_FAILED and
 change nothing). -/
 theorem run_refines_sequential {α : Type} (p : Prog α) (s : State) (hi : Inv s) (hsk : SkipsOk s.skips)
     (hns : NoSeekSkip s) (hcs : s.canSeek = false) (hq : SeeksOk s.seeks) :
-    runImpl p s = runSpec p (absS s) :=
+    runImpl p s = runSpec p (absStream s) :=
   run_refines p s hi hsk hns hq (seekReady_of_noseek s hcs) (specSafe_of_noseek p _ hcs rfl)
 
 /-- **C05, partition independence.**  Two sources that deliver the same bytes
@@ -184,7 +154,7 @@ theorem partition_independent {α : Type} (p : Prog α) (src1 src2 : List (List 
     (by intro a ha; cases ha)
   rw [e1, e2]
   congr 1
-  simp [absS, open_, remaining, hcat]
+  simp [absStream, open_, remaining, hcat]
 
 /-- **C05, multi-volume sets.**  Several sources opened as one multi-volume set
 (`archive_read_open_filenames`, `archive_read_append_callback_data`), each cut into
@@ -203,7 +173,7 @@ theorem multivolume_concat {α : Type} (p : Prog α) (src1 : List (List Nat)) (l
     hk2 (Or.inl rfl) rfl (by intro a ha; cases ha)
   rw [e1, e2]
   congr 1
-  simp [absS, openNodes, remaining, hcat]
+  simp [absStream, openNodes, remaining, hcat]
 
 /-- Non-vacuity: a header split over three volumes against the single-volume source. -/
 example : SrcOk [[1, 2]] ∧ (∀ n ∈ [[[3]], [[4, 5]]], SrcOk n) ∧ SrcOk [[1, 2, 3, 4, 5]] ∧
@@ -220,85 +190,6 @@ example : SrcOk [[1, 2], [3, 4, 5]] ∧ SrcOk [[1], [2], [3], [4], [5]] ∧
 
 /-! ### Seekable sources -/
 
-/-- A freshly opened seekable source (`archive_read_open_filenames`, or callbacks with
-`archive_read_set_seek_callback`): the data nodes with their contents, the function `blk` by
-which the client cuts what it delivers into blocks (it may depend on the node, on the offset
-and on how many seeks there were), the skip script, whether a skip callback exists at all.
-Nothing is known about node sizes yet (`-1`); the first node begins at 0. -/
-def seekable0 (nodes : List (List Nat)) (blk : Nat → Nat → Nat → Nat) (t : Term) (skips : List Int)
-    (canSkip : Bool) : State :=
-  { nodes := nodes
-    blk := blk
-    term := t
-    skips := skips
-    canSkip := canSkip
-    canSeek := true
-    hasSeeker := true
-    begins := 0 :: List.replicate (nodes.length - 1) (-1)
-    sizes := List.replicate nodes.length (-1) }
-
-def openSeekable (nodes : List (List Nat)) (blk : Nat → Nat → Nat → Nat) (t : Term) (skips : List Int)
-    (canSkip : Bool) : State :=
-  place (seekable0 nodes blk t skips canSkip) 0 0 0
-
-theorem cacheOk_open (nodes : List (List Nat)) (blk : Nat → Nat → Nat → Nat) (t : Term) (skips : List Int)
-    (cs : Bool) (hne : nodes ≠ []) : CacheOk (openSeekable nodes blk t skips cs) := by
-  have hl : 0 < nodes.length := List.length_pos_iff.mpr hne
-  refine { ne := hl, lb := by simp [openSeekable, seekable0, place]; omega,
-           lz := by simp [openSeekable, seekable0, place],
-           b0 := by simp [openSeekable, seekable0, place], bt := ?_, zt := ?_ }
-  · intro i b hb h0
-    cases i with
-    | zero =>
-      simp [openSeekable, seekable0, place] at hb
-      rw [← hb, prefixLen_zero]; rfl
-    | succ n =>
-      have hb' : (List.replicate (nodes.length - 1) (-1 : Int))[n]? = some b := by
-        simpa [openSeekable, seekable0, place] using hb
-      rw [List.getElem?_replicate] at hb'
-      split at hb'
-      · cases hb'; omega
-      · cases hb'
-  · intro i z hz h0
-    have hz' : (List.replicate nodes.length (-1 : Int))[i]? = some z := by
-      simpa [openSeekable, seekable0, place] using hz
-    rw [List.getElem?_replicate] at hz'
-    split at hz'
-    · cases hz'; omega
-    · cases hz'
-
-theorem inv_open (nodes : List (List Nat)) (blk : Nat → Nat → Nat → Nat) (t : Term) (skips : List Int) (cs : Bool) :
-    Inv (openSeekable nodes blk t skips cs) := by
-  have hok := place_srcOk (seekable0 nodes blk t skips cs) 0 0 0
-  exact { cbIn := by simp [openSeekable, seekable0, place], bufLt := by simp [openSeekable, seekable0, place],
-          clientEq := by simp [openSeekable, seekable0, place],
-          prov := ⟨[], [], by simp [openSeekable, seekable0, place]⟩,
-          eofSrc := (by simp [openSeekable, seekable0, place]), srcOk := hok.1, laterOk := hok.2 }
-
-theorem remaining_open (nodes : List (List Nat)) (blk : Nat → Nat → Nat → Nat) (t : Term) (skips : List Int)
-    (cs : Bool) (hne : nodes ≠ []) : remaining (openSeekable nodes blk t skips cs) = nodes.flatten := by
-  have h := place_tail (seekable0 nodes blk t skips cs) 0 0 0
-  have hr : remaining (openSeekable nodes blk t skips cs) = tailBytes (openSeekable nodes blk t skips cs) := by
-    simp [remaining, tailBytes, openSeekable, seekable0, place]
-  rw [hr]
-  unfold openSeekable
-  rw [h]
-  cases nodes with
-  | nil => exact absurd rfl hne
-  | cons a rest => simp [nodeAt, seekable0]
-
-theorem seekReady_open (nodes : List (List Nat)) (blk : Nat → Nat → Nat → Nat) (t : Term) (skips : List Int)
-    (cs : Bool) (hne : nodes ≠ []) : SeekReady (openSeekable nodes blk t skips cs) := by
-  intro _
-  refine ⟨cacheOk_open nodes blk t skips cs hne, rfl, fun _ => ?_⟩
-  rw [remaining_open nodes blk t skips cs hne]
-  show nodes.flatten = (nodes.flatten).drop 0
-  simp
-
-theorem absS_open (nodes : List (List Nat)) (blk : Nat → Nat → Nat → Nat) (t : Term) (skips : List Int) (cs : Bool) :
-    absS (openSeekable nodes blk t skips cs) = ⟨nodes.flatten, 0, t, false, true, false⟩ := by
-  simp [absS, openSeekable, seekable0, place, allBytes]
-
 /-- **C05 with seeks: partition, re-blocking and volume independence.**  Two seekable sources
 that hold the same bytes — spread over any number of data nodes of any sizes (empty ones
 included), each delivering its bytes in blocks cut by any function of (number of seeks so far,
@@ -313,10 +204,10 @@ theorem partition_independent_seek {α : Type} (p : Prog α) (nodes1 nodes2 : Li
     (hsafe : SpecSafe p ⟨nodes1.flatten, 0, t, false, true, false⟩) :
     runImpl p (openSeekable nodes1 blk1 t sk1 cs1) = runImpl p (openSeekable nodes2 blk2 t sk2 cs2) := by
   have e1 := run_refines p (openSeekable nodes1 blk1 t sk1 cs1) (inv_open _ _ _ _ _) hk1 (Or.inl rfl)
-    (by intro a ha; cases ha) (seekReady_open _ _ _ _ _ hn1) (by rw [absS_open]; exact hsafe)
+    (by intro a ha; cases ha) (seekReady_open _ _ _ _ _ hn1) (by rw [absStream_open]; exact hsafe)
   have e2 := run_refines p (openSeekable nodes2 blk2 t sk2 cs2) (inv_open _ _ _ _ _) hk2 (Or.inl rfl)
-    (by intro a ha; cases ha) (seekReady_open _ _ _ _ _ hn2) (by rw [absS_open, ← hcat]; exact hsafe)
-  rw [e1, e2, absS_open, absS_open, hcat]
+    (by intro a ha; cases ha) (seekReady_open _ _ _ _ _ hn2) (by rw [absStream_open, ← hcat]; exact hsafe)
+  rw [e1, e2, absStream_open, absStream_open, hcat]
 
 /-- **C05, multi-volume sets with seeks**: a seekable multi-volume set behaves as the single
 seekable source holding the concatenation. -/
@@ -349,8 +240,8 @@ example : ([[1, 2, 3], [], [4, 5, 6, 7]] : List (List Nat)) ≠ [] ∧
 example : runImpl demoProg (openSeekable [[1, 2, 3], [], [4, 5, 6, 7]] (fun _ _ _ => 2) .eof [2, 0] true) =
     [.ok [1, 2], .ok [3, 4, 5], .ok [7], .ok [1, 2, 3, 4]] := by
   rw [run_refines demoProg _ (inv_open _ _ _ _ _) (by simp [openSeekable, seekable0, place, SkipsOk]) (Or.inl rfl)
-    (by intro a ha; cases ha) (seekReady_open _ _ _ _ _ (by simp)) (by rw [absS_open]; unfold SpecSafe; decide),
-    absS_open]
+    (by intro a ha; cases ha) (seekReady_open _ _ _ _ _ (by simp)) (by rw [absStream_open]; unfold SpecSafe; decide),
+    absStream_open]
   decide
 
 /-- **`__archive_read_filter_seek` refines "position := target, if 0 ≤ target ≤ length; else
